@@ -108,9 +108,88 @@ def run(chk):
                 % (total_unimpl, total_unimpl - REVIEWED_TOTAL, REVIEWED_TOTAL, dict(sorted(per_fn.items()))), BASE, None)
     units_rule(chk, fx)
     chk.undecide('internal-error diagnostics (compiler_bug / type_not_found, e.g. `f a, b = a * b + 1`), unwrap()/enum_unwrap! sites and hangs are not judged')
+    count_sub_rule(chk, fx)
     return ('Scan of every `match` over a syntax-tree enum in the checker / optimiser / code generator (scrutinee types from rustc typeck; variant constructibility from constructor '
             'sites in the resolved program) for arms that are solely todo!/unimplemented!/panic!, plus a monotone count of unimplemented-markers. '
             'Internal-error diagnostics, unwrap sites and hangs are not decided.'), {}
+
+
+def count_sub_rule(chk, fx):
+    """element counts are unsigned: `count - c` needs count >= c on the path"""
+    CG_ = 'crates/erg_compiler/codegen.rs'
+    chk.rule('C07-sub', 'in the code generator an element count (a local bound to `<collection>.len()`) is only decreased by a constant where the path shows it is large enough — under '
+                        '`count == 0` false / `count > 0` / `!collection.is_empty()`, or with a constant part at least as large (`1 + argc - 1`): an empty list / tuple / set / dict / '
+                        'record literal otherwise underflows (a panic in debug builds, a huge stack size in release builds)')
+    d = fx.file(CG_)
+    types = d['types']
+    nsite = 0
+    for f in d['fns']:
+        if not T.norm(f['path']).startswith('PyCodeGenerator::'):
+            continue
+        counts = {}
+        for n in T.walk(f['body']):
+            if n.get('k') == 'Let' and n.get('init') is not None and n['pat'].get('k') == 'Bind':
+                i_ = T.peel(n['init'])
+                if i_.get('k') == 'MCall' and i_['n'] == 'len' and not i_['a']:
+                    counts[n['pat']['n']] = T.show(T.peel(i_['r']))
+        if not counts:
+            continue
+
+        def lin(e):
+            """(constant part, {count: coef}) or None"""
+            e = T.peel(e)
+            v = T.lit_int(e)
+            if v is not None:
+                return v, {}
+            if e.get('k') == 'Cast':
+                return lin(e['x'])
+            if e.get('k') == 'Local':
+                return (0, {e['n']: 1}) if e['n'] in counts else None
+            if e.get('k') == 'Binary' and e['op'] in ('+', '*'):
+                a, b = lin(e['x']), lin(e['y'])
+                if a is None or b is None:
+                    return None
+                if e['op'] == '+':
+                    m = dict(a[1])
+                    for k_, c_ in b[1].items():
+                        m[k_] = m.get(k_, 0) + c_
+                    return a[0] + b[0], m
+                if not a[1]:
+                    return a[0] * b[0], {k_: c_ * a[0] for k_, c_ in b[1].items()}
+                if not b[1]:
+                    return a[0] * b[0], {k_: c_ * b[0] for k_, c_ in a[1].items()}
+            return None
+        for n, ctx in T.walk_ctx(f['body']):
+            if n.get('k') != 'Binary' or n.get('op') != '-' or types[n['lt']] not in ('usize', 'u32', 'u64'):
+                continue
+            c = T.lit_int(T.peel(n['y']))
+            l = lin(n['x'])
+            if c is None or l is None or not l[1]:
+                continue
+            nsite += 1
+            where = T.norm(f['path'])
+            if l[0] >= c:
+                chk.ok('C07-sub', (where, n['l'], 'constant part'))
+                continue
+            guarded = False
+            for cx in ctx:
+                if cx[0] != 'if':
+                    continue
+                cs = T.show(cx[1]).replace(' ', '')
+                for cnt, coll in counts.items():
+                    if cnt not in l[1]:
+                        continue
+                    need = -(-(c - l[0]) // l[1][cnt])          # count >= need suffices (other counts >= 0)
+                    if cx[2] is False and cs in ('%s==0' % cnt, '0==%s' % cnt) and need <= 1:
+                        guarded = True
+                    if cx[2] is True and need <= 1 and (cs in ('%s>0' % cnt, '%s!=0' % cnt, '%s>=1' % cnt) or ('!%s.is_empty()' % coll.replace(' ', '')) in cs):
+                        guarded = True
+            if guarded:
+                chk.ok('C07-sub', (where, n['l'], 'guarded'))
+            else:
+                chk.bad('C07-sub', where, 'sub:%s' % T.show(n)[:30].replace(' ', ''), '%s computes `%s` where the count can be 0 on this path: an empty collection literal makes the unsigned '
+                        'subtraction underflow — the compiler panics (debug) or records an absurd stack size (release)' % (where, T.show(n)[:40]), CG_, n['l'])
+    chk.floor('count subtractions in the code generator', nsite, 6)
 
 
 def units_rule(chk, fx):
